@@ -209,11 +209,17 @@ def run_mapping(conf, trace_dir=None, plan=None):
     return res
 
 
-def run_scenario(scn, workdir, scheme='structural', name_tables=False, plan=None, keep=False):
+def run_scenario(scn, workdir, scheme='structural', name_tables=False, plan=None, keep=False,
+                 damage=None):
     """materialise + run + load outputs.  Returns dict with conf, ok, error, json (parsed
     extended output or None), traces, dir."""
     d = pathlib.Path(tempfile.mkdtemp(prefix='run_', dir=workdir))
     conf = materialise(scn, d, scheme, name_tables)
+    if damage == 'missing_query':
+        os.unlink(conf['query_path'])
+    elif damage == 'corrupt_query':
+        with open(conf['query_path'], 'wb') as f:
+            f.write(b'this is not an hdf5 file')
     r = run_mapping(conf, trace_dir=d / 'trace', plan=plan)
     r['conf'] = conf
     r['dir'] = str(d)
